@@ -23,8 +23,8 @@ from ..transports import (
 )
 
 PROP = "C11"
-RUNS = {"quick": 40000, "thorough": 2500000}
-BLOCK = {"quick": 400, "thorough": 5000}
+RUNS = {"quick": 240000, "thorough": 2500000}
+BLOCK = {"quick": 1000, "thorough": 5000}
 SHRINK_LISTS = ["ops", "decisions", "items"]
 RULE = (
     "level 1 (4 of 5 runs): one seeded byte stream (dense in CR/LF) delivered to the real SocketWrapper over a link "
